@@ -5,14 +5,14 @@
 (* built, the typed leaf sets and the typed expression grammar.            *)
 (*                                                                         *)
 (* Problem Prob (a UPJ value, built in Python by harness.upj.build):       *)
-(*   type T, objects o1 o2                                                 *)
+(*   types T and Ts < T; objects o1 : Ts, o2 : T                           *)
 (*   b1 b2 : bool          n : int[-1,2]         r : real (unbounded)      *)
 (*   p(T) : bool           nxt(T) : T                                      *)
 (*   s : int[0,3] = 2      STATIC (no action assigns it)                   *)
 (*   sp(T) : bool          STATIC, sp(o1) = true, sp(o2) = false           *)
 (*   action act(q : T) assigns b1 b2 n r p(q) nxt(q)                       *)
-(* Expressions may mention the action parameter q and the variable x : T   *)
-(* (bound by the quantifiers of the grammar, free elsewhere).              *)
+(* Expressions may mention the action parameter q and the variables x : T, *)
+(* y : T, z : Ts (bound by the quantifiers of the grammar, free elsewhere).*)
 (***************************************************************************)
 EXTENDS UPExpr
 
@@ -30,7 +30,13 @@ TT    == [k |-> "user", name |-> "T"]
 BoolT == [k |-> "bool"]
 IntT(lo, hi) == [k |-> "int", lo |-> NV(lo, 1), hi |-> NV(hi, 1)]
 RealT == [k |-> "real", lo |-> NONE, hi |-> NONE]
-Qx(o, body) == [op |-> o, args |-> <<body>>, name |-> "", v |-> UNDEF, vars |-> <<[name |-> "x", type |-> TT]>>]
+TsT   == [k |-> "user", name |-> "Ts"]
+Qv(o, vn, vt, body) == [op |-> o, args |-> <<body>>, name |-> "", v |-> UNDEF, vars |-> <<[name |-> vn, type |-> vt]>>]
+Qx(o, body) == Qv(o, "x", TT, body)
+Qy(o, body) == Qv(o, "y", TT, body)
+Qz(o, body) == Qv(o, "z", TsT, body)
+\* declared types of the variables of the grammar
+VarTypes == [x |-> "T", y |-> "T", z |-> "Ts"]
 TRUEc == C(BV(TRUE))
 FALSEc == C(BV(FALSE))
 Num(n, d) == C(NV(n, d))
@@ -42,8 +48,8 @@ IV(f, args, v) == [f |-> f, args |-> args, v |-> v]
 Eff(f, args, v) == [kind |-> "assign", f |-> [name |-> f, args |-> args], v |-> v, c |-> TRUEc, forall |-> <<>>]
 Prob ==
   [name |-> "c11",
-   types |-> <<[name |-> "T", parent |-> ""]>>,
-   objects |-> <<[name |-> "o1", type |-> "T"], [name |-> "o2", type |-> "T"]>>,
+   types |-> <<[name |-> "T", parent |-> ""], [name |-> "Ts", parent |-> "T"]>>,
+   objects |-> <<[name |-> "o1", type |-> "Ts"], [name |-> "o2", type |-> "T"]>>,
    fluents |-> <<FD("b1", BoolT, <<>>), FD("b2", BoolT, <<>>), FD("n", IntT(0 - 1, 2), <<>>), FD("r", RealT, <<>>),
                  FD("s", IntT(0, 3), <<>>), FD("p", BoolT, Sig1), FD("nxt", TT, Sig1), FD("sp", BoolT, Sig1)>>,
    init |-> <<IV("b1", <<>>, BV(TRUE)), IV("b2", <<>>, BV(FALSE)), IV("n", <<>>, NV(0, 1)), IV("r", <<>>, NV(0, 1)),
@@ -73,7 +79,7 @@ InitOf(P, key) == LET is == {i \in DOMAIN P.init : P.init[i].f = key[1] /\ [j \i
 
 \* ---------- typed leaves ----------
 B1f == Fl0("b1")   B2f == Fl0("b2")   Nf == Fl0("n")   Rf == Fl0("r")   Sf == Fl0("s")
-O1 == Ob("o1")     O2 == Ob("o2")     Q == Par("q")    X == Var("x")
+O1 == Ob("o1")     O2 == Ob("o2")     Q == Par("q")    X == Var("x")    Y == Var("y")    Z == Var("z")
 BoolAtoms == {B1f, B2f, Fl1("p", X), Fl1("p", Q), Fl1("sp", O1), Fl1("sp", X), TRUEc, FALSEc}
 NumAtoms  == {Nf, Rf, Sf, Num(0, 1), Num(1, 1), Num(0 - 1, 1), Num(2, 1), Num(1, 2)}
 ObjAtoms  == {O1, O2, Q, X, Fl1("nxt", X), Fl1("nxt", Q)}
